@@ -987,8 +987,17 @@ func genQRStream(t *rapid.T, version int) []byte {
 				n := rapid.IntRange(0, 8).Draw(t, "bn")
 				put(4, 4)
 				put(n, []int{8, 16, 16}[cls])
+				// byte-order-mark prefixes of every length are what the charset guesser looks at first
+				bom := rapid.SampledFrom([][]int{nil, nil, {0xEF, 0xBB, 0xBF}, {0xFE, 0xFF}, {0xFF, 0xFE}}).Draw(t, "bom")
+				if len(bom) > n {
+					bom = bom[:n]
+				}
 				for i := 0; i < n; i++ {
-					put(rapid.SampledFrom([]int{0x25, 0x1D, 0x41, 0xE9, 0x83, 0x00}).Draw(t, "bv"), 8)
+					if i < len(bom) {
+						put(bom[i], 8)
+						continue
+					}
+					put(rapid.SampledFrom([]int{0x25, 0x1D, 0x41, 0xE9, 0x83, 0x00, 0xEF, 0xBB, 0xBF}).Draw(t, "bv"), 8)
 				}
 			default: // kanji
 				n := rapid.IntRange(0, 4).Draw(t, "kn")
